@@ -193,6 +193,12 @@ def classify_exception(exc):
     import traceback
     if type(exc).__name__ == "HarnessError":
         return None
+    if type(exc).__name__ == "ObjectInvariantBroken":
+        return {"type": "ObjectInvariantBroken", "where": "object",
+                "msg": "malformed object produced by the code under test: "
+                       "%s" % exc,
+                "traceback": "".join(traceback.format_exception(
+                    type(exc), exc, exc.__traceback__))[-3000:]}
     repo = os.path.realpath(os.environ.get("EVO_VERIF_REPO") or "/repo")
     verif = os.path.realpath(os.path.join(os.path.dirname(__file__), "..",
                                           ".."))
